@@ -58,14 +58,14 @@ func genP(t *rapid.T) PScript {
 		}
 		if !control && i == at {
 			if longInitial {
-				s.Backoff.InitialUS = int64(rapid.IntRange(6_000_000, 10_000_000).Draw(t, "long_initial_us"))
+				s.Backoff.InitialUS = int64(rapid.IntRange(10_000_000, 14_000_000).Draw(t, "long_initial_us"))
 				s.Backoff.MaxIntUS = s.Backoff.InitialUS
 				if s.Backoff.RandX100 > 30 {
 					s.Backoff.RandX100 = 30
 				}
 			} else {
 				o.Throttle = true
-				o.ThrottleUS = int64(rapid.IntRange(5_000_000, 10_000_000).Draw(t, "long_throttle_us"))
+				o.ThrottleUS = int64(rapid.IntRange(8_000_000, 12_000_000).Draw(t, "long_throttle_us"))
 			}
 		}
 		s.Outcomes = append(s.Outcomes, o)
@@ -237,5 +237,5 @@ func runPInner(s *PScript) (bool, *vt.Finding) {
 }
 
 func TestShutdownPersist(t *testing.T) {
-	vt.Run(t, cP, vt.N(800, 15000), genP, runP)
+	vt.Run(t, cP, vt.N(2400, 80000), genP, runP)
 }
